@@ -131,13 +131,14 @@ def sample_rules(ctx: Context) -> None:
               f"{len(brks)} breaks and {len(rets_in_loop)} returns inside the loop", f, loop)
     brks = early
     zero_forms = {n.canon(parse_expr(t)) for t in (f"len({dup}) == 0", f"0 == len({dup})", f"len({dup}) < 1", f"len({dup}) <= 0")} if dup else set()
+    count_form = n.canon(parse_expr(f"len({dup})")) if dup else None
     for b in brks:
         deps = {(t, lab) for t, lab in g.control_closure(b, head) if t.kind == "test"}
         ok = len(deps) == 1
         for t, lab in deps:
             canon = n.canon(t.ast)
             is_zero = canon in zero_forms
-            is_not = isinstance(t.ast, ast.Name) and t.ast.id == dup  # `if not duplicates: break` -> test node `duplicates`, false edge
+            is_not = (isinstance(t.ast, ast.Name) and t.ast.id == dup) or (dup is not None and canon == count_form)  # `if not duplicates` / `if not len(duplicates)`: false edge
             ok = ok and ((is_zero and lab == "true") or (is_not and lab == "false"))
         ctx.check(ok, "D6.break-iff-empty", "BaseSampler.sample:break-condition", "the loop is left early iff no repeats were found",
                   f"the early exit is controlled by {[(src(t.ast), lab) for t, lab in deps]}", f, b.ast)
@@ -151,7 +152,7 @@ def sample_rules(ctx: Context) -> None:
     for c in redraw:
         for x in node_for(g, c):
             deps = {(t, lab) for t, lab in g.control_closure(x, head) if t.kind == "test"}
-            ok = all(n.canon(t.ast) in zero_forms or (isinstance(t.ast, ast.Name) and t.ast.id == dup) for t, _ in deps)
+            ok = all(n.canon(t.ast) in zero_forms or (isinstance(t.ast, ast.Name) and t.ast.id == dup) or n.canon(t.ast) == count_form for t, _ in deps)
             ctx.check(ok, "D4.every-pass", "BaseSampler.sample:redraw-guard", "a pass with repeats always redraws",
                       f"the redraw is additionally guarded by {[src(t.ast) for t, _ in deps]}", f, c)
 
@@ -214,9 +215,24 @@ def finder_rules(ctx: Context) -> None:
     ctx.check(ok, "D7.positions", "find_and_get_duplicates:positions", "positions are the rows of new_points equal to a repeated row on all coordinates",
               f"positions computed by `{src(aw[0])}`", f, aw[0])
     # groups iterated are the repeated ones
+    groups_names = {t.id for s_ in walk_scope(f.node) if isinstance(s_, (ast.Assign, ast.AnnAssign)) and s_.value is not None and any(x is masks[0] for x in ast.walk(s_.value))
+                    for t in ([s_.target] if isinstance(s_, ast.AnnAssign) else s_.targets) if isinstance(t, ast.Name)}
+    gcf = CFG(f.node)
     for r in returns_of(f):
         # the collected positions, held in a local or written as the comprehension that collects them
         ok = isinstance(r.value, ast.Name) or any(x is aw[0] for x in ast.walk(r.value))
+        if not ok and isinstance(r.value, (ast.List, ast.Tuple)) and not r.value.elts and groups_names:
+            # `return []` on the path where no row is repeated: an empty list of positions is the list of positions
+            deps = [(t_, lab) for t_, lab in gcf.control_closure(gcf.nodes_of(r)[0]) if t_.kind == "test"]
+            if len(deps) == 1 and {x.id for x in ast.walk(deps[0][0].ast) if isinstance(x, ast.Name)} - {"len", "np"} <= groups_names:
+                gname = sorted(groups_names)[0]
+                try:
+                    t_empty = bool(Evaluator(prog, f)._eval(deps[0][0].ast, {gname: []}))
+                    t_some = bool(Evaluator(prog, f)._eval(deps[0][0].ast, {gname: [0]}))
+                except AnalysisError:
+                    raise AnalysisError(f"{f.loc(r)}: cannot read the guard `{src(deps[0][0].ast)}` of the early `return []` in the duplicate finder") from None
+                taken_when_true = deps[0][1] == "true"
+                ok = (t_empty == taken_when_true) and (t_some != taken_when_true)
         ctx.check(ok, "D7.return", "find_and_get_duplicates:return", "returns the list of positions", f"returns `{src(r.value)}`", f, r)
 
 
